@@ -283,6 +283,15 @@ impl<'m> Driver<'m> {
             };
             mon.steps += 1;
             mon.fold(&res);
+            if mon.keep_log {
+                if let Some(sh) = &self.shared {
+                    for l in sh.calls_log.borrow_mut().drain(..) {
+                        mon.log.push(format!("    {}", l));
+                    }
+                }
+                let fired_now = fired.len() > fired_before;
+                mon.log.push(format!("op {} {} -> {}{}", steps.len(), op.name(), show_res(&res), if fired_now { format!("  [fault fired: {:?}]", &fired[fired_before..]) } else { String::new() }));
+            }
             let is_end = op.reports_end() && matches!(res, Ok(None));
             let sticky_io = self.sticky_hard && matches!(&res, Err(e) if e.cat == Cat::Io);
             steps.push(Step { op, res, fired_before, fired_after: fired.len(), from_drain });
@@ -338,6 +347,7 @@ pub fn exec(opts_ix: u32, source: &Source, input: &[u8], ops: &[Op], then_drain:
         Source::Stream(plan) => {
             let mut sim = SimReader::new(input, plan);
             let shared = sim.shared.clone();
+            shared.trace.set(mon.keep_log);
             let sticky_hard = plan.faults.iter().any(|f| f.sticky && matches!(f.kind, ReadFaultKind::Hard(_)));
             let d = Driver { opts, input, ops, then_drain, bound, shared: Some(shared.clone()), sticky_hard, mon, what: "stream source" };
             let run = with_adapter(input, plan, &mut sim, StreamDrive(d));
